@@ -242,7 +242,11 @@ C13_ReadBack_C ==
 
 (* C11 — content addressing, append-only, same bytes everywhere *)
 C11_Names_A == Acting /\ E.op \in {"Commit", "Meld"} /\ HasObs(Post) /\ dpre.has /\ ~Damaged
-C11_Names_C == \A i \in NewItems : i.kind \in {"delta", "pack"} => i.ok
+C11_Names_C ==
+    \A i \in NewItems : i.kind \in {"delta", "pack"} =>
+        /\ i.ok                                                \* named by the SHA-256 of its bytes, well formed
+        /\ (i.kind = "delta" /\ (\A p \in i.parents : \E q \in DPost.items : q.kind = "delta" /\ q.name = p) =>
+              i.idx = 1 + Core!MaxIdx({q \in DPost.items : q.kind = "delta" /\ q.name \in i.parents}))   \* index = highest parent + 1
 C11_AppendOnly_A == Acting /\ E.op # "Damage" /\ Has2
 C11_AppendOnly_C == Rng(pre.items) \subseteq Rng(Post.items)
 C11_SameBytes_A == Acting /\ HasObs(Post) /\ ~Damaged
